@@ -41,8 +41,19 @@ Units(num, den) == (num \div den) * S + ((num % den) * S) \div den
 LayoutSet == {"C", "F", "strided", "readonly"}
 ErrSet == {"default", "ignore", "raise", "warnerr"}
 CbSet == {"none", "tuple", "float", "false", "true3"}
+\* call forms (the result must not depend on them): positional / keyword arguments, a re-exported entry point, None vs 0 for an
+\* absent penalty, zeros written as -0.0 or subnormals, an earlier failed call on the same arrays, the start aliased with the
+\* right-hand side (fista, active_set) or x with dual_var (admm), a 1-D right-hand side (fista)
+FormSet == {"pos", "kw"}
+EntrySet == {"home", "alias"}
+SpellSet == {"none", "zero"}
+ValsSet == {"plain", "negzero", "subnormal"}
+PrevSet == {"none", "failed"}
 OptionsOK(e) ==
     /\ e.layout \in LayoutSet /\ e.err \in ErrSet
+    /\ e.form \in FormSet /\ e.entry \in EntrySet /\ e.spell \in SpellSet /\ e.vals \in ValsSet /\ e.prev \in PrevSet
+    /\ e.alias \in BOOLEAN /\ (e.alias => e.solver \in {"fista", "active_set", "admm"})
+    /\ e.vecrhs \in BOOLEAN /\ (e.vecrhs => e.solver = "fista")
     /\ e.cb \in CbSet /\ (e.cb # "none" => e.solver = "hals")
     /\ e.mutG \in BOOLEAN /\ e.mutB \in BOOLEAN /\ e.mutS \in BOOLEAN
     /\ e.nzr \in BOOLEAN /\ (e.nzr => e.solver = "hals")
